@@ -1,7 +1,7 @@
 (* PropC11.v — property theorems for C11 (sync-state index integrity) about StateModel.v.
    Only statements closed by [exact], each followed by Print Assumptions. *)
 From Coq Require Import NArith List Bool.
-From CS Require Import Sx Str PathModel PathLaws StateModel StateProofs StatePathProofs StateFolderProofs StateUpdateProofs.
+From CS Require Import Sx Str PathModel PathLaws StateModel StateProofs StatePathProofs StateGuardModel StateFolderProofs StateUpdateProofs.
 Import ListNotations.
 
 (* the empty state satisfies all four clauses *)
@@ -194,6 +194,11 @@ Theorem C11_idx_reachable : forall E ops s',
   idx_found s' /\ idx_slots s' /\ idx_unique s'.
 Proof. exact idx_reachable. Qed.
 Print Assumptions C11_idx_reachable.
+
+(* the bits printed by the extracted guard model (coq/bin/stateguard, StateGuardModel.run) decide that hypothesis *)
+Theorem C11_guard_trace_decides : forall E l s, guardedb E s l = forallb (N.eqb 1) (guard_trace E s l).
+Proof. exact guard_trace_all. Qed.
+Print Assumptions C11_guard_trace_decides.
 
 (* the same from any state satisfying the invariant, for the final state of a run *)
 Theorem C11_idx_run : forall E ops s s',
